@@ -148,6 +148,80 @@ def script_for(subset, tsrc, data):
     )
 
 
+_CACHE = {}
+
+
+def compiled(cls, tsrc):
+    """one fresh environment + compiled template per template source (reused for the data assignments)."""
+    hit = _CACHE.get((cls, tsrc))
+    if hit is None:
+        if len(_CACHE) > 32:
+            _CACHE.clear()
+        env = cls()
+        try:
+            with core.alarm(10):
+                hit = (env, env.from_string(tsrc), None)
+        except core.CaseTimeout:
+            hit = (env, None, "CaseTimeout")
+        except Exception as e:  # noqa: BLE001
+            hit = (env, None, type(e).__name__)
+        _CACHE[(cls, tsrc)] = hit
+    return hit
+
+
+def judge(cls, subset, ast, placement, di, p=None):
+    """run one (expression, placement, data) through jinja2 and the reference;
+    -> None (agree / undefined by the model) or (kind, message)."""
+    data = DATA[di]
+    res, elog = expected(ast, subset, data)
+    if res[0] == "skip":
+        if p is not None:
+            p.count("skipped")
+        return None
+    want, wlog = expected_render(placement, res, elog)
+    tsrc = template_for(placement, G.to_src(ast))
+    env, tmpl, cerr = compiled(cls, tsrc)
+    env.log = glog = []
+    if tmpl is None:
+        got = ("exc", cerr)
+    else:
+        try:
+            with core.alarm(10):
+                got = ("ok", tmpl.render(**data))
+        except core.CaseTimeout:
+            got = ("exc", "CaseTimeout")
+        except Exception as e:  # noqa: BLE001
+            got = ("exc", type(e).__name__)
+    if p is not None:
+        p.evals += 1
+        if wlog:
+            p.sig((placement, tuple(sorted({e[0] for e in wlog})), type(res[1]).__name__ if want[0] == "ok" else want[1]))
+    kind = None
+    gops = [e[0] for e in glog]
+    wops = [e[0] for e in wlog]
+    if gops != wops:
+        stray = [o for o in gops if o not in subset]
+        if stray:
+            kind = "spurious/" + stray[0]
+        else:
+            missing = [o for o in wops if wops.count(o) > gops.count(o)]
+            kind = ("unrouted/" + missing[0]) if missing else "order"
+    elif glog != wlog:
+        kind = "operands/" + next(g[0] for g, w in zip(glog, wlog) if g != w)
+    elif got[0] != want[0] or (got[0] == "exc" and got[1] != want[1]):
+        kind = "exception"
+    elif got != want:
+        kind = "output"
+    if kind is None:
+        return None
+    return kind, (f"intercepted={sorted(subset)} {tsrc!r} data={data!r}: log {glog!r} result {got!r}; "
+                  f"reference log {wlog!r} result {want!r}"), tsrc
+
+
+def root_op(ast):
+    return ast[1] if ast[0] in ("bin", "un") else ast[0]
+
+
 def shard(arg):
     quick, subset_idx, subset = arg
     warnings.filterwarnings("ignore", category=SyntaxWarning)
@@ -162,63 +236,28 @@ def shard(arg):
             continue
         for vname, vec in LEAF_VECS.items():
             ast = G.fill(shape, vec)
-            src = G.to_src(ast)
-            exp = [expected(ast, subset, d) for d in DATA]
             case += 1
             for placement in ((PLACEMENTS[case % 6],) if quick else PLACEMENTS):
-                tsrc = template_for(placement, src)
-                env = cls()
-                tmpl = None
-                try:
-                    with core.alarm(10):
-                        tmpl = env.from_string(tsrc)
-                except core.CaseTimeout:
-                    cerr = "CaseTimeout"
-                except Exception as e:  # noqa: BLE001
-                    cerr = type(e).__name__
-                for di, data in enumerate(DATA):
-                    res, elog = exp[di]
-                    if res[0] == "skip":
-                        p.count("skipped")
+                for di in range(len(DATA)):
+                    bad = judge(cls, subset, ast, placement, di, p)
+                    if bad is None:
                         continue
-                    want, wlog = expected_render(placement, res, elog)
-                    p.evals += 1
-                    env.log = glog = []
-                    if tmpl is None:
-                        got = ("exc", cerr)
-                    else:
-                        try:
-                            with core.alarm(10):
-                                got = ("ok", tmpl.render(**data))
-                        except core.CaseTimeout:
-                            got = ("exc", "CaseTimeout")
-                        except Exception as e:  # noqa: BLE001
-                            got = ("exc", type(e).__name__)
-                    if wlog:
-                        p.sig((placement, tuple(sorted({e[0] for e in wlog})), want[0] == "ok" and type(res[1]).__name__ or want[1]))
-                    kind = None
-                    gops = [e[0] for e in glog]
-                    wops = [e[0] for e in wlog]
-                    if gops != wops:
-                        stray = [o for o in gops if o not in subset]
-                        if stray:
-                            kind = "spurious/" + stray[0]
+                    # signature from the smallest sub-expression that still disagrees in the same placement
+                    small = ast
+                    while True:
+                        for _, child in G.subnodes(small):
+                            cb = judge(cls, subset, child, placement, di)
+                            if cb is not None and cb[0].split("/")[0] == bad[0].split("/")[0]:
+                                small, bad = child, cb
+                                break
                         else:
-                            missing = [o for o in wops if wops.count(o) > gops.count(o)]
-                            kind = ("unrouted/" + missing[0]) if missing else "order"
-                    elif glog != wlog:
-                        kind = "operands/" + next(g[0] for g, w in zip(glog, wlog) if g != w)
-                    elif got[0] != want[0] or (got[0] == "exc" and got[1] != want[1]):
-                        kind = "exception"
-                    elif got != want:
-                        kind = "output"
-                    if kind:
-                        p.violation(f"C20/{kind}/{placement}/{vname}", {
-                            "msg": f"intercepted={sorted(subset)} {tsrc!r} data={data!r}: log {glog!r} result {got!r}; "
-                                   f"reference log {wlog!r} result {want!r}",
-                            "subset": sorted(subset), "template": tsrc, "data": data,
-                            "script": script_for(subset, tsrc, data)})
-            p.sample({"intercepted": sorted(subset), "expr": src, "template": template_for(PLACEMENTS[case % 6], src)}, cap=1)
+                            break
+                    kind, msg, tsrc = bad
+                    p.violation(f"C20/{kind}/{placement}/{root_op(small)}", {
+                        "msg": msg + f"  (found in {G.to_src(ast)!r})", "subset": sorted(subset), "template": tsrc,
+                        "data": DATA[di], "script": script_for(subset, tsrc, DATA[di])})
+            p.sample({"intercepted": sorted(subset), "expr": G.to_src(ast),
+                      "template": template_for(PLACEMENTS[case % 6], G.to_src(ast))}, cap=1)
     p.count("subsets")
     return p
 
